@@ -486,4 +486,29 @@ example : WF exHalf ∧ valid3Orient (toMesh3 exHalf) = true ∧
     collapseEdgeLocalCell exHalf [true, true, true, false, true, true, true] 0 6 = false := by
   refine ⟨by decide, by decide, by decide, by decide, by decide, by decide, by decide, by decide, by decide⟩
 
+/-! ### the collapse as a cavity replacement (checked on the example; the general statement is not proved) -/
+
+/-- the 8 tets of `exStar` in the cell store of the cavity model -/
+def exStarCavGrid : Cavity.Grid Int :=
+  let g : Cavity.Grid Int := (List.range 7).foldl (fun g _ => (g.addNode ⟨⟨0, 0, 0⟩, true⟩).1) Cavity.Grid.create
+  (exStar.tet.map tetOf).foldl (fun g t => { g with tets := (g.tets.add t).1 }) g
+
+/-- `collapse_eq_cavityReplace` on the 8-tet star (NOT proved in general: it needs the face list of
+    `ref_cavity_add_tet` over the closed star to be exactly the link, slot by slot).  The cavity machine fed with
+    star(node1 = 6) and cavity node node0 = 0 (what `ref_cavity_form_edge_collapse` builds) passes the manifold
+    verification and creates 4 tets; they have the vertex sets of the 4 tets `ref_collapse_edge` leaves, and the same
+    orientation: closing the cavity's tets with the faces of the collapsed tets as boundary gives signed multiplicity
+    zero on every face.  So on this star the substitution IS the cavity replace, and `replace_conforming` /
+    `replace_volume` of `Props/C01` say the same as `collapse_conforming` / `collapse_volume_interior`. -/
+example :
+    let c := (addTets exStarCavGrid (Refine.Props.C01.emptyCav 0) [0, 1, 2, 3, 4, 5, 6, 7]).2
+    let new := newTets { c with state := .visible }
+    let col := (collapseEdge exStar 0 6).2.tet.map tetOf
+    (addTets exStarCavGrid (Refine.Props.C01.emptyCav 0) [0, 1, 2, 3, 4, 5, 6, 7]).1 = .ok ∧
+    Refine.Props.C01.VerifyPassed { c with state := .visible } ∧ new.length = 4 ∧
+    (∀ t ∈ new, ∃ u ∈ col, uniq [t.n0.toNat, t.n1.toNat, t.n2.toNat, t.n3.toNat] =
+        uniq [u.n0.toNat, u.n1.toNat, u.n2.toNat, u.n3.toNat]) ∧
+    valid3Orient (⟨[], new, (col.flatMap tetFaces).map fun f => ⟨f.n0, f.n1, f.n2, 0⟩⟩ : Mesh3 Int) = true := by
+  decide
+
 end Refine.Props.C13Collapse
